@@ -62,9 +62,42 @@ def kernel_case(case):
         else: ms.max_step(vec('x', N), dims, mnl)
     else: raise KeyError(k)
 
+def index_case(case):
+    """indexing / indexed assignment on dense and sparse matrices with arbitrary index objects and right-hand sides of arbitrary shape"""
+    from cvxopt import spmatrix, sparse
+    def mkidx(sp):
+        if isinstance(sp, int): return sp
+        if sp[0] == 's': return slice(sp[1], sp[2], sp[3])
+        if sp[0] == 'l': return list(sp[1])
+        if sp[0] == 'm': return matrix(sp[1], (len(sp[1]), 1), 'i')
+        raise KeyError(sp)
+    def mkmat(spec):
+        kind, tc, m, n = spec
+        if kind == 'num': return 2.5 if tc == 'd' else (3 if tc == 'i' else (1 + 2j))
+        M = mk((tc, m, n))
+        return sparse(M) if kind == 'sparse' and tc != 'i' else M
+    A = mkmat(case['A'])
+    I = mkidx(case['I']); J = mkidx(case['J']) if case.get('J') is not None else None
+    if case['op'] == 'get':
+        r = A[I] if J is None else A[I, J]
+        if hasattr(r, 'size'): len(r)
+    else:
+        V = mkmat(case['V'])
+        if J is None: A[I] = V
+        else: A[I, J] = V
+        # touch the whole result: a corrupted structure would show here
+        if hasattr(A, 'CCS'): list(A.V), list(A.I), list(A.J)
+        else: list(A)
+
 for line in sys.stdin:
     case = json.loads(line)
     print('START %d' % case['id']); sys.stdout.flush()
+    if case.get('kind') == 'index':
+        try:
+            index_case(case); print('RESULT %d ok' % case['id'])
+        except Exception as e:
+            print('RESULT %d exc %s' % (case['id'], type(e).__name__))
+        sys.stdout.flush(); continue
     if case.get('kind') == 'kernel':
         try:
             kernel_case(case); print('RESULT %d ok' % case['id'])
